@@ -23,6 +23,8 @@ pub enum Init {
     Standalone(PModel),
     /// Paragraph::from_str(text): handle to the first paragraph of its own parsed tree
     ParaFromStr(String),
+    /// the paragraphs of the parsed text collected into a new document (FromIterator<Paragraph>), in reverse order when set
+    Collected(String, bool),
     /// Deb822::new()
     New,
     /// the text parsed and then reformatted by Deb822::wrap_and_sort (paragraphs through Paragraph::wrap_and_sort with
@@ -94,6 +96,16 @@ impl Live {
                 Some((Live { doc: None, solo: Some(para) }, vec![p.clone()]))
             }
             Init::New => Some((Live { doc: Some(Deb822::new()), solo: None }, vec![])),
+            Init::Collected(t, rev) => {
+                let d0 = Deb822::from_str(t).ok()?;
+                let mut ps: Vec<Paragraph> = d0.paragraphs().collect();
+                if *rev {
+                    ps.reverse();
+                }
+                let m: DModel = ps.iter().map(|p| p.items().collect()).collect();
+                let d: Deb822 = ps.into_iter().collect();
+                Some((Live { doc: Some(d), solo: None }, m))
+            }
             Init::Reformatted(t) => {
                 let d0 = Deb822::from_str(t).ok()?;
                 let wp = |p: &Paragraph| p.wrap_and_sort(deb822_lossless::Indentation::Spaces(1), false, None, None, None);
